@@ -125,8 +125,13 @@ def c20(run):
     confs = [("AllOps", 3, 3, 2)] if q else [("AllOps", 4, 3, 2), ("NoTitleOps", 5, 4, 1)]
     for ops, maxops, maxdepth, reads in confs:
         res = lib.run_tlc("MC_C20", C20_CFG.format(maxops=maxops, maxdepth=maxdepth, reads=reads, ops=ops))
-        run.add_tlc("MC_C20(%s,ops<=%d,depth<=%d)" % (ops, maxops, maxdepth), res, vacuity_exempt=("SetTitle",))
+        run.add_tlc("MC_C20(%s,ops<=%d,depth<=%d)" % (ops, maxops, maxdepth), res, vacuity_exempt=("SetTitle", "AddDoctest", "AddSection", "ChangeTitle", "AddList"))
         rstw.replay(run, res.lines.get("BEH", []), run.seed, limit=None if q else 150000)
+    # growth beyond C20: section() and doctest() (conformance of the specification to the code; IndentExact is not
+    # demanded below a section, which restarts at indent 0 whatever encloses it)
+    res = lib.run_tlc("MC_C20", C20_CFG.format(maxops=3 if q else 4, maxdepth=2, reads=1, ops="GrowthOps"))
+    run.add_tlc("MC_C20(GrowthOps: section, doctest)", res, vacuity_exempt=("SetTitle", "AddList", "AddOption", "ChangeTitle", "ClearWriter"))
+    rstw.replay(run, res.lines.get("BEH", []), run.seed, limit=None if q else 100000)
     res = lib.run_tlc("MC_C20", C20_CFG.format(maxops=9, maxdepth=4, reads=2, ops="AllOps"), simulate=300 if q else 4000,
                       depth=14, seed=run.seed, workers=8, coverage=False)
     run.add_tlc("MC_C20(simulate,ops<=9)", res)
